@@ -20,6 +20,7 @@ for _v in ("OPENBLAS_NUM_THREADS", "OMP_NUM_THREADS", "MKL_NUM_THREADS"):
 import numpy as np  # noqa: E402
 
 from . import common
+from . import c05_cover
 from .common import Spec, Driver, write_if_changed
 
 LAYOUT_NAMES = ["0+2+0", "0+5+0", "2+5+0", "4+5+0", "4+5+1", "3+7+0", "4+9+0", "9+10+3", "0+7+0", "4+7+0"]
@@ -879,6 +880,22 @@ THEOREMS = (
     "tables_wellFormed",
     "tables_ten",
     "C05_partial",
+    # totality (sphere coverage), Stages 1-3
+    "Cover.cover_of_cells",
+    "Cover.cover_of_cert",
+    "cover_tables_ok",
+    "cover_layouts",
+    "Cover.panner_total_of_cert",
+    "panner_total_layouts_partial",
+    "Cover.roots_in_unit_pos",
+    "Cover.quadRoot_of_unit_root",
+    "Cover.bil_dot_pos",
+    "Cover.quad_accepts",
+    "Cover.quadAccepts_of_check",
+    "quad_tables_ok",
+    "quad_accepts_layouts",
+    "panner_total_layouts",
+    "pspHandle_total_layouts",
 )
 
 
@@ -896,6 +913,9 @@ class C05(Spec):
         "the real root is checked), geom.ngon_vertex_order (the order is extracted), scipy.spatial.ConvexHull/Qhull (the region "
         "list per layout is extracted into Gen/C05_Tables.lean on every run)",
         "theorems are over the reals: they say nothing about rounding, NaN or the 1e-11 acceptance slack beyond what is stated",
+        "harness/c05_cover.py (certificate generator, exact Fraction arithmetic) is NOT trusted: whatever it emits is re-checked by "
+        "the kernel against Gen/C05_Tables.lean (Cover.coverCertOk, Cover.quadRegionOk); the totality theorem's root selection for "
+        "QuadRegions is GainCalc.quadRoot (Model/GainCalcConcrete.lean, owned by C01)",
     )
     assumptions = (
         "generated real layouts: left/right symmetric, every channel inside its BS.2051 az/el range (layout.check_positions "
@@ -906,8 +926,13 @@ class C05(Spec):
         "quantifier (hits tagged boundary-layout:<id>, not suppressed), the asymmetric families (#cornerA, #opp) are tagged "
         "asymmetric-catalogue:<id>; every configured panner also gets a structural check: the vertex order of each QuadRegion / "
         "VirtualNgon must be a simple polygon equal to the harness's own order by angle around the centre",
-        "NOT proved: totality / side dominance / layer separation / symmetry of the composed panner (they depend on Qhull's "
-        "facets covering the sphere for every admissible layout) - watched by the search",
+        "totality is PROVED for the ten nominal layouts at model level over the reals (panner_total_layouts): the sphere-coverage "
+        "certificate Gen/C05_Cover.lean (cells = vertex triples / coplanar quadruples of the real regions, neighbours, orientation) "
+        "and the quad sign certificate are regenerated from configure() on every run and re-decided by the kernel; quad pan values "
+        "are selected by the closed form GainCalc.quadRoot (np.roots + scan; LAPACK's eigenvalue order is an assumption of that "
+        "model, tied by C01's correspondence)",
+        "NOT proved: totality on real (non-nominal) positions, side dominance / layer separation / symmetry of the composed "
+        "panner, anything about rounding - watched by the search",
     )
     rule = (
         "a case is one (layout, direction) evaluated on the real panner (search) or one (region object | wrapper | whole panner, "
@@ -924,6 +949,39 @@ class C05(Spec):
         changed = write_if_changed(os.path.join(common.GEN, "C05_Tables.lean"), text)
         ctx.count("tables:regenerated" if changed else "tables:unchanged")
         ctx.notes.append("Gen/C05_Tables.lean: %d bytes, %d region definitions" % (len(text), text.count(": RawRegion")))
+        self.extract_cover(ctx)
+
+    def extract_cover(self, ctx):
+        """Sphere-coverage certificate (Gen/C05_Cover.lean) from the real configured panners, exact arithmetic.  A hole, a
+        non-convex edge or a degenerate cell is NOT patched: the layout gets an empty certificate (so the kernel check
+        `cover_tables_ok` fails too) and a broken obligation that says what is wrong; the search then runs deep."""
+        pans = [Pan(name, name) for name in LAYOUT_NAMES]
+        certs = []
+        for pan in pans:
+            try:
+                cert = c05_cover.build(pan.regions)
+                used = {c.region for c in cert["cells"]}
+                if used != set(range(len(pan.regions))):
+                    raise c05_cover.CoverError("a region of the configured panner has no cell", {"regions_without_cell": sorted(set(range(len(pan.regions))) - used)})
+                certs.append(cert)
+                ctx.obligation("cover-certificate:" + pan.name, True, "%d cells (%d coplanar quads), closed, strictly convex, origin inside" % (
+                    len(cert["cells"]), sum(1 for c in cert["cells"] if len(c.vs) == 4)))
+                ctx.count("cover|cells|" + pan.name, len(cert["cells"]))
+            except c05_cover.CoverError as e:
+                certs.append(None)
+                ctx.obligation("cover-certificate:" + pan.name, False,
+                               "the regions of configure(%s) do not form a closed convex surface around the origin: %s %s"
+                               % (pan.name, e.what, json.dumps(e.detail, default=str)[:600]))
+            bad = [(k, c05_cover.quad_signs_problem(r)) for k, r in enumerate(pan.regions) if region_kind(r) == "QuadRegion"]
+            bad = [(k, why) for k, why in bad if why]
+            ctx.obligation("quad-sign-certificate:" + pan.name, not bad,
+                           "; ".join("region %d: %s" % b for b in bad[:4]) if bad else
+                           "%d QuadRegions" % sum(1 for r in pan.regions if region_kind(r) == "QuadRegion"))
+        K = c05_cover.scale_exponent([p.regions for p in pans])
+        text = c05_cover.lean_text(LAYOUT_NAMES, certs, K)
+        changed = write_if_changed(os.path.join(common.GEN, "C05_Cover.lean"), text)
+        ctx.count("cover-certificate:regenerated" if changed else "cover-certificate:unchanged")
+        ctx.notes.append("Gen/C05_Cover.lean: %d bytes, %d cells, scale 2^%d" % (len(text), sum(len(c["cells"]) for c in certs if c), K))
 
     # ---- C ----
     def layouts_for_run(self, ctx, n_real):
@@ -1015,6 +1073,9 @@ class C05(Spec):
                     want = [int(np.argmax(dmx[:, nch + i])) for i, c in enumerate(extra) if c.polar_nominal_position.elevation == lel]
                     add("extra %s %s %d %s" % (ftok(lb), ftok(ub), nch, " ".join("%s %s" % (ftok(a), ftok(e)) for a, e in nom)),
                         "extra_pos_vertical_nominal", {"layout": pan.spec(), "layer": lel}, ("idx", want), False, "%s|Extra|layer%+d" % (tagl, int(lel)))
+        # 4. coverage self-test on the real objects (nominal and generated real layouts)
+        for pan in pans:
+            self._cover_selftest(ctx, pan, pan.name if pan.real is None else pan.name + "/real")
         outs = driver.run(lines)
         for line, out, (what, inp, impl, amb, key, tol) in zip(lines, outs, metas):
             ctx.count("corr|" + key)
@@ -1052,6 +1113,46 @@ class C05(Spec):
                     break
         # a small budget of the direct predicate runs here too
         self._search(ctx, budget=8000 if ctx.quick else 20000, n_real=2)
+
+    def _cover_selftest(self, ctx, pan, tagl):
+        """Tie of the coverage certificate to the real objects: (a) the cell list is made of the real regions' own
+        vertices and every real region has a cell; (b) the theorem's claim "a direction in the vertex cone of a cell is
+        accepted by that cell's region" is tried on the real region objects (interior samples) and "the panner answers"
+        on the whole real panner (interior, vertex and edge samples).  On real (non-nominal) layouts the flat cells need
+        not form a convex surface, so only (a)/(b) are run there and whether the surface certifies is just counted."""
+        try:
+            cells = c05_cover.cells_of_regions(pan.regions)
+        except c05_cover.CoverError as e:
+            ctx.broken.append("cover self-test %s: %s %s" % (pan.lid, e.what, json.dumps(e.detail, default=str)[:300]))
+            return
+        missing = sorted(set(range(len(pan.regions))) - {c.region for c in cells})
+        if missing:
+            ctx.broken.append("cover self-test %s: regions without a cell: %s" % (pan.lid, missing))
+        if pan.real is not None:
+            try:
+                c05_cover.connect(cells)
+                ctx.count("cover-selftest|%s|flat surface certifies" % tagl)
+            except c05_cover.CoverError as e:
+                ctx.count("cover-selftest|%s|flat surface does not certify (%s)" % (tagl, e.what[:40]))
+        for ci, cell in enumerate(cells):
+            r = pan.regions[cell.region]
+            kind = region_kind(r)
+            for cls, p in c05_cover.sample_directions(cell, ctx.rng, 1 if ctx.quick else 4):
+                inp = {"layout": pan.spec(), "region": cell.region, "region_kind": kind, "cell_vertex_slots": cell.vs,
+                       "direction": [repr(float(x)) for x in p], "sample": cls}
+                ctx.count("cover-selftest|%s|%s|%s" % (tagl, kind, cls))
+                ctx.case(("cover", pan.lid, ci, cls, tuple(float(x) for x in p)), cls != "interior")
+                whole = _call(pan.handle, p)
+                if whole is None:
+                    ctx.hit("no result (None) for a direction inside the vertex cone of a region", inp, {}, ())
+                    continue
+                if cls in ("centroid", "interior"):
+                    own = _call(r.handle, p)
+                    if own is None and not ambiguous(r, p):
+                        ctx.disagree("region rejects a direction strictly inside its own vertex cone (model theorem: accepts)",
+                                     inp, "some", None)
+                        continue
+                ctx.validated()
 
     # ---- S ----
     def _search(self, ctx, budget, n_real, catalogue=False):
@@ -1105,15 +1206,30 @@ REGISTRY = dict(
     "gains of unit power (0+2+0: between -3 dB and 0 dB), is exact at a vertex, is mirror-invariant, and that the panner "
     "inherits these from the first accepting region and returns no result iff every region rejects; table obligations "
     "(tables_wellFormed, decide +kernel) on the region tables regenerated from configure() for the ten nominal layouts. "
-    "NOT proved (searched on the real code): totality, side dominance, layer separation and symmetry of the composed panner, "
-    "which need Qhull's facets to cover the sphere for every admissible layout.",
+    "TOTALITY (never 'no result') is now proved for the ten nominal layouts at the level of the model over the reals: "
+    "Cover.cover_of_cells (a closed, locally strictly convex cell complex around the origin covers every direction by its vertex "
+    "cones), cover_tables_ok (the certificate regenerated from the real configured panner - cells, neighbours, orientation, exact "
+    "binary64 coordinates - passes the checker, decide +kernel), Cover.cover_of_cert / cover_layouts (every direction is a "
+    "non-negative combination of three independent vertices of one region), Cover.panner_total_of_cert (Triplet and VirtualNgon "
+    "accept on their cones; first-accept, downmix and stereo wrappers pass a result on), quad_tables_ok + Cover.quad_accepts / "
+    "quad_accepts_layouts (a QuadRegion accepts on the cone of its corners: its quadratics have an exact root in [0,1] which the "
+    "closed-form root selection GainCalc.quadRoot returns, and the final sign test passes), panner_total_layouts / "
+    "pspHandle_total_layouts (the modelled configure(layout).handle never answers none for a non-zero direction); "
+    "panner_total_layouts_partial is the same for any root selection under the hypothesis Cover.QuadAcceptsOnCone. "
+    "NOT proved (searched on the real code): totality on real (non-nominal) positions, side dominance, layer separation and "
+    "symmetry of the composed panner; rounding; that np.roots lists the roots in the order GainCalc.quadRoot assumes.",
     note="Trusted: Lean kernel, hand transliteration of point_source.py tied by Float correspondence on every region object, "
-    "wrapper and whole nominal panner; np.linalg.inv / np.roots / ngon_vertex_order / Qhull are parameters or extracted data. "
+    "wrapper and whole nominal panner; np.linalg.inv / np.roots / ngon_vertex_order / Qhull are parameters or extracted data "
+    "(np.roots: closed form GainCalc.quadRoot in the totality theorem). The coverage and quad-sign certificates are generated by "
+    "harness/c05_cover.py in exact rational arithmetic from the real region objects, never patched (a hole, a non-convex edge or "
+    "a degenerate cell is reported as a broken obligation and leaves an empty certificate so that the kernel check fails too), "
+    "and self-tested: every real region has a cell, the real regions / the real panner accept sample directions inside every cell. "
     "Search: Fibonacci sphere + every region edge arc with offsets 1e-12..1e-3 + vertices + poles + horizontal plane on nominal, "
     "generated admissible symmetric real layouts, a fixed catalogue of boundary-valued real layouts (every channel at each "
     "inclusive end of its az/el range, screen loudspeakers at exactly 5/25/35/60 degrees and one ulp inside) and a fixed "
     "asymmetric catalogue.",
-    technique="Lean 4 algebraic proofs over the reals on a scalar-polymorphic model + regenerated region tables (decide +kernel) "
-    "+ differential correspondence with the real region objects + boundary-directed search of the property on the real panner",
+    technique="Lean 4 algebraic proofs over the reals on a scalar-polymorphic model + regenerated region tables and regenerated "
+    "geometric certificates (exact integer arithmetic, decide +kernel) + differential correspondence with the real region objects "
+    "+ boundary-directed search of the property on the real panner",
     design_ref="DESIGN.md section 4, C05",
 )
